@@ -46,7 +46,7 @@ int main(int argc, char **argv)
     bool term_ok = q < s.size() && s[q] == 1 && nd >= 1;
     unsigned long long total = 12 + nd + 1 + v + 7;
     bool wellformed = pre_ok && term_ok && v >= 1 && v <= maxlen && total <= s.size();
-    bool must_accept = wellformed && v <= maxlen - bg - 7;
+    bool must_accept = wellformed && v <= maxlen - bg - 7 && nd <= 9;
     f8String to; bool ret = false; const char *exc = nullptr; std::string what;
     try { ret = rd->read(to); }
     catch (const f8Exception& e) { exc = "f8Exception"; what = e.what(); }
